@@ -226,7 +226,8 @@ Example C11_four_index_instance :
 Proof. exact (conj ex_shape4 (conj ex_sym8 ex_four_symm_perm)). Qed.
 Print Assumptions C11_four_index_instance.
 
-(* electron_repulsion_integral (OneBody.eri_integral, chemists' notation, no transform) *)
+(* electron_repulsion_integral (OneBody.eri_integral, chemists' notation, no transform); the two hypotheses
+   [shape4] and [sym8] are theorems for this model: Props/C11_sym8.v (C11_assemble_perm_eri_integral_full) *)
 Theorem C11_assemble_perm_eri_integral :
   forall (F : Type) (K : Fops F) (basis : list (shell F)) (ds : shell F) (r : nat -> nat) (p : list nat),
   shape4 (length basis) r (Beri K basis) -> sym8 (f0 K) (length basis) (Beri K basis) ->
